@@ -42,7 +42,7 @@ def _assumed_sort(qual):
     return _K
 
 
-for _q in ("Perm.stack_sort", "Perm.quick_sort"):  # pop_stack_sort, bubble_sort: proved, contracts/sorting_ops.py
+for _q in ("Perm.quick_sort",):  # stack_sort, pop_stack_sort, bubble_sort: proved, contracts/sorting_ops.py
     _assumed_sort(_q)
 
 
